@@ -952,6 +952,53 @@ fn discipline_directed(out: &mut Vec<Case>) {
     }
 }
 
+/// A rolled-back UPDATE that SHRINKS rows sitting in full leaf pages (400 rows of ~190 bytes, loaded in
+/// key order): the undo has to put the longer old records back where there is no room left in place.
+/// After ROLLBACK (and ROLLBACK TO, and dropping the handle) every row must read as before, through the
+/// rolling-back handle and through a second handle.  `sig` = signature to report under.
+pub fn shrink_rollback_scenario(ctx: &Ctx, rep: &mut Report, sig: &str) {
+    for how in ["rollback", "rollback-to", "drop-handle"] {
+        let case = format!("full-leaf shrink then {how}");
+        rep.case(Some(&case));
+        rep.count("shrink_rollback_scenarios");
+        let dir = format!("{}/txn-shrink-{}-{how}", ctx.scratch, std::process::id());
+        let _ = std::fs::remove_dir_all(&dir);
+        let d2 = dir.clone();
+        let db = match guarded(move || Database::create(&d2)) { Ok(Ok(db)) => db, _ => continue };
+        let _ = exec_on(&db, "CREATE TABLE t (id INT PRIMARY KEY, payload TEXT)");
+        let mut ok = true;
+        for chunk in (0..400).collect::<Vec<i64>>().chunks(50) {
+            let rows: Vec<String> = chunk.iter().map(|i| format!("({i}, '{}')", format!("{:03}-", i).repeat(47))).collect();
+            if !matches!(exec_on(&db, &format!("INSERT INTO t VALUES {}", rows.join(", "))), Res::Affected(_)) { ok = false; }
+        }
+        if !ok { rep.count("shrink_rollback_setup_failed"); continue; }
+        let before = exec_on(&db, "SELECT id, payload FROM t");
+        let other = db.clone();
+        let worker = db.clone();
+        let mut steps = vec!["BEGIN".to_string()];
+        if how == "rollback-to" { steps.push("SAVEPOINT s1".into()); }
+        steps.push("UPDATE t SET payload = 'x' WHERE id < 20".into());
+        for s in &steps { let _ = exec_on(&worker, s); }
+        match how {
+            "rollback" => { let _ = exec_on(&worker, "ROLLBACK"); }
+            "rollback-to" => { let _ = exec_on(&worker, "ROLLBACK TO SAVEPOINT s1"); let _ = exec_on(&worker, "COMMIT"); }
+            _ => { let _ = guarded(std::panic::AssertUnwindSafe(move || drop(worker))); }
+        }
+        for (who, h) in [("the same database through the first handle", &db), ("a second handle", &other)] {
+            let after = exec_on(h, "SELECT id, payload FROM t");
+            if after != before {
+                let (nb, na) = match (&before, &after) { (Res::Rows(b), Res::Rows(a)) => (b.len(), a.len()), _ => (0, 0) };
+                let changed = match (&before, &after) { (Res::Rows(b), Res::Rows(a)) => b.iter().zip(a.iter()).filter(|(x, y)| x != y).count(), _ => 0 };
+                rep.oracle_fail(case.clone(), format!("after BEGIN; UPDATE t SET payload = 'x' WHERE id < 20; {how}: {who} reads {na} rows ({changed} differ) where {nb} rows were there before the transaction: {}", after.short()), format!("{sig}:{how}"));
+                break;
+            }
+        }
+        drop(other);
+        let _ = guarded(std::panic::AssertUnwindSafe(move || drop(db)));
+        let _ = std::fs::remove_dir_all(&dir);
+    }
+}
+
 pub fn run(ctx: &Ctx) -> Report {
     let mut rep = Report::new(
         "sql_txn",
@@ -969,6 +1016,7 @@ pub fn run(ctx: &Ctx) -> Report {
     let mut sys = vec![];
     systematic(&mut sys);
     for c in &sys { r.run_case(&mut rep, c, "systematic"); }
+    if ctx.replay.is_none() { shrink_rollback_scenario(ctx, &mut rep, "rollback:full-leaf-shrink:rows"); }
     let mut dd = vec![];
     discipline_directed(&mut dd);
     for c in &dd { r.run_case(&mut rep, c, "discipline-directed"); }
